@@ -71,6 +71,7 @@ def engine_evaluation_order(ctx):
 
 
 def run(ctx):
+    resume_follows_clear(ctx, "C02")
     detector_walk_every_tick(ctx, "C02")
     # locals / parameters the rules below refer to by name (a rename makes the analysis 'broken', never a violation)
     ctx.anchor(ctx.fn1('Oomd::Engine::Ruleset::runOnceImpl'), 'run_actions', 'dg', 'context')
@@ -200,7 +201,7 @@ def run(ctx):
                                ("action_group_", "BasePlugin::prerun", True)):
         ls = loop_over(rpre, name)
         if len(ls) != 1:
-            ctx.violation("Ruleset::prerun:loop:" + name, "anchor", rpre.loc(),
+            ctx.violation("Ruleset::prerun:loop:" + name, "loop-shape (every plugin is prerun)", rpre.loc(),
                           "Ruleset::prerun has no single loop over %s" % name)
             continue
         L = ls[0]
